@@ -216,13 +216,23 @@ def handshake_case(ctx, rng, fixed=None):
     if extra or len(writes) > 2:
         ctx.violation("rejected device received more than the version probe", dict(witness, wrote=[w.decode("latin-1") for w in writes]))
     # afterwards the object must stay silent (ties into the C04 latch monitor)
-    before = len([e for e in world.log.events if e["kind"] == "write"])
+    mark = world.log.mark()
+    intrinsic = dev["identity"] == "EBB" or dev["identity"].startswith("non-EBB")   # not a transient fault
+    retried = intrinsic and rng.random() < 0.6
+    if retried:
+        # a caller that simply tries again: whatever connect() answers (not decided here), the
+        # rejected device must still receive nothing but version probes
+        retry = dict(step, faults=[], reply=step.get("reply"))
+        retry.pop("open_fault", None)
+        ebb3mon.call_step(world, retry)
+        ctx.tag("retried connect after a rejection")
     for name in rng.sample(sorted(ebb3mon.REQUESTS), 4):
         ebb3mon.call_step(world, {"m": name, "a": ebb3mon.gen_args(rng, name)})
-    after = len([e for e in world.log.events if e["kind"] == "write"])
+    later = [e["data"].decode("latin-1") for e in world.log.since(mark) if e["kind"] == "write"]
     ctx.count("monitor:follow-up requests on rejected objects", 4)
-    if after != before:
-        ctx.violation("request transmitted after a rejected connect", dict(witness, log_tail=world.log.dump(20)))
+    if any(w != "v\r" for w in later):
+        ctx.violation("rejected device received more than the version probe",
+                      dict(witness, wrote_later=later, retried_connect=retried, log_tail=world.log.dump(20)))
     world.mon.online = []
 
 
@@ -303,6 +313,7 @@ def run(ctx):
     for g in GATES:
         ctx.need("gate:" + g[0], 200)
     ctx.need("monitor:connect() calls checked", 3000)
+    ctx.need("retried connect after a rejection", 500)
     ctx.need("monitor:version comparisons checked", 10000)
 
 
